@@ -174,6 +174,12 @@ let dispatch (name : string) (args : sx list) : string =
   | "to_taproot", [pub; sc] ->
       opt (fun (xb, odd) -> hex_of xb ^ "," ^ bs odd) (Model.to_taproot Model.sha256 ec_add ec_g Model.params_field (pair_of pub) (sarg_of sc))
   | "control_block", [pub; t; idx; odd] -> opt hex_of (Model.control_block Model.sha256 (pair_of pub) (tree_of t) (z_of idx) (bool_of odd))
+  | "taproot_cb", [pub; t; idx] ->
+      let pub = pair_of pub and t = tree_of t in
+      (match Model.to_taproot Model.sha256 ec_add ec_g Model.params_field pub (Model.STree t) with
+       | None -> "ERR"
+       | Some (xb, odd) ->
+           hex_of xb ^ "," ^ bs odd ^ "|" ^ opt hex_of (Model.control_block Model.sha256 pub t (z_of idx) odd))
   | "merkle_root", [t] -> opt hex_of (Model.merkle_root Model.sha256 (tree_of t))
   | "sign_taproot", [k; dg; ht; sc; tw] ->
       opt hex_of (Model.sign_taproot Model.sha256 cp cn ec_add ec_lift ec_g Model.params_order
